@@ -346,7 +346,7 @@ func c05Run(r *core.Run) {
 	var plans []plan
 	budget := 80 * time.Second
 	if r.Thorough() {
-		budget = 14 * time.Minute
+		budget = 25 * time.Minute
 		for _, sc := range scenarios {
 			plans = append(plans, plan{sc.Name, 2, 3})
 		}
